@@ -90,6 +90,17 @@ CHECKS.update({
    note=GEN_NOTE + " Derived fields (prepared_objects, only_has_io_error, end positions) are not compared; sizes are C09's."),
 })
 
+CHECKS.update({
+ "C17": dict(engine="gencheck", category="exploration", design="DESIGN.md §2 C17",
+   technique="interpreter for the C subset of the generated dissector fragment, run over canonical encodings from the independent wowm model (directed enumeration of every decision site + proptest tapes); oracle = leaf-by-leaf alignment with the model's trace and exact end of body; also on valid mutants of the corpus",
+   text="Every Vanilla world message and login message that has a case in tests/wireshark/parser.txt (655 entries incl. both directions of MSG_* and every login protocol version) is interpreted over all encodings the directed enumeration and the proptest tapes produce (about 20,000 quick); each read must cover whole leaves of one member in definition order with its width and endianness, compressed members are followed into the inflated buffer, the walk must end exactly at the end of the body; every hf_ variable, constant and variable used must be declared / registered; messages without a case must have an empty body.",
+   note=GEN_NOTE + " The hand-written helper functions of the real dissector (add_cstring, add_packed_guid, add_update_mask, ...) are modelled by their wire forms, not executed."),
+ "C18": dict(engine="gencheck", category="exploration", design="DESIGN.md §2 C18",
+   technique="round-trip: the wowm text embedded in every doc page section and every Rust doc comment is parsed back by the independent model's parser and compared with the source object; body tables and annotated examples are compared with the model's member order, sizes and its decoding of the test vector; also on valid mutants of the corpus",
+   text="All 2,064 page sections and 2,057 Rust doc comments of a fresh generator run are parsed back and compared (name, kind, opcode, base type, enumerators and values, member order and types, constants, conditions, optional blocks; section versions against the object's versions; every object must have a section); 1,679 body tables are compared for member order and fixed sizes; 175 examples are re-assembled from their annotated byte groups and compared with the test vector and with the order in which the model decodes it.",
+   note=GEN_NOTE + " The type column of body tables is not judged (upcasts are rendered without the cast); body tables are absent by design for nested ifs (counted)."),
+})
+
 PENDING = {}
 
 def main():
@@ -121,7 +132,7 @@ def main():
             {"name": "wowm_model", "path": "harness/model", "serves_properties": ["C01", "C02", "C03", "C04", "C05", "C06", "C14"], "kind_free_text": "independent reading of the wowm language: parser, resolver, tape-driven encoder/decoder with trace, exact size analysis"},
             {"name": "codec_harness", "path": "harness/codec_harness", "serves_properties": ["C01", "C02", "C03", "C04", "C05", "C06", "C14"], "kind_free_text": "Rust binary linking /repo's three libraries with all features; generic endpoints over the public opcode enums, typed expect_* helpers, scripted async transport, isolated worker processes"},
             {"name": "typed_harness", "path": "harness/typed_harness", "serves_properties": ["C11", "C12", "C13"], "kind_free_text": "Rust binary linking /repo's libraries; build script scans the generated sources for public enum / flag / update-mask types and emits adapters; expected behaviour from the wowm model and the published update-mask table"},
-            {"name": "gencheck", "path": "harness/gencheck", "serves_properties": ["C08", "C09", "C10", "C16"], "kind_free_text": "drives the real generator (built from /repo's working tree) on rsync'ed scratch trees: run histories, perturbations, fault injection into the wowm corpus"},
+            {"name": "gencheck", "path": "harness/gencheck", "serves_properties": ["C08", "C09", "C10", "C16", "C17", "C18"], "kind_free_text": "drives the real generator (built from /repo's working tree) on rsync'ed scratch trees: run histories, perturbations, fault injection into the wowm corpus"},
         ],
         "checks": checks,
         "notes": "All checks: property-based testing / fuzzing (generated-input search against an explicit oracle). ./check <ID> <tier> rebuilds the harness from /repo's working tree with cargo (offline) and runs it; VERIF_SEED selects the proptest seed. Exit 2 = infrastructure problem or inconclusive, never a violation. known_findings.txt lists recorded findings and repaired defects.",
